@@ -11,13 +11,13 @@ rm -rf $D; mkdir -p $D build/logs/coqchk
 import sys, os
 sys.path.insert(0, 'tools')
 import gen_specs
-for g in ("water", "gas", "oil", "reservoir", "fluid", "flowprops", "forecast", "plotting"):
+for g in ("water", "gas", "oil", "reservoir", "fluid", "flowprops", "forecast", "plotting", "fitpressure"):
     p, err = gen_specs.generate(g, "$D")
     print(g, err or "ok")
 PY
 cp coq/Props/*.v $D/
 cd $D
-order="Gen_water Gen_gas Gen_oil Gen_reservoir Gen_fluid Gen_flowprops Gen_forecast Gen_plotting C01_matrix C12_blackoil C06_root C07_gas C12_spivey C12_viscosity"
+order="Gen_water Gen_gas Gen_oil Gen_reservoir Gen_fluid Gen_flowprops Gen_forecast Gen_plotting Gen_fitpressure C01_matrix C12_blackoil C06_root C07_gas C12_spivey C12_viscosity"
 for f in $order; do [ -f $f.v ] && coqc -q -Q ../../coq/Lib BBLib -Q . BBRun $f.v >/dev/null 2>&1 || echo "compile failed: $f"; done
 for f in C*.v; do b=${f%.v}; [ -f $b.vo ] || coqc -q -Q ../../coq/Lib BBLib -Q . BBRun $f >/dev/null 2>&1 || echo "compile failed: $b"; done
 # ONLY="C02_mesh C05_interpolator ..." re-checks just those files and replaces their lines in the summary
